@@ -5,6 +5,9 @@ VERIF = os.path.dirname(os.path.dirname(os.path.abspath(__file__)))
 ALL = ["C%02d" % i for i in range(1, 21)]
 
 CHECKS = {
+ "C04": dict(engine="H", technique="explicit-state BFS to a fixpoint over signal-subscription histories on two real loops (two threads, lock-step), real raise() deliveries, fork per evaluation; invariant oracle on callbacks, old handler and sigaction() disposition",
+   text="All reachable subscription states of 4 signal events (single signal, signal set, one-shot) on two loops are explored to a fixpoint; in every state each signal is raised for real and every loop runs one pass: each enabled subscriber gets exactly one callback on its own thread, the previously installed handler (plain / SA_SIGINFO / SIG_IGN) is called once, and whenever a signal has no subscriber the kernel disposition equals the pre-subscription one field by field.",
+   note="Trusted: lock-step controller (deliveries never overlap subscription changes, as the property assumes); SA_RESTORER ignored in the comparison; bounds: 2 signals, 4 events, 2 loops.", ref="2/C04"),
  "C03": dict(engine="H", technique="explicit-state BFS over fd-event operation histories x callback scripts on real pipes/socketpairs, each history executed on both back-ends in a forked child under ASan with de-pooled per-fd records; differential epoll-vs-select oracle",
    text="Every history up to the depth of enable/disable/feed/drain/loop-pass over 3 event configurations (shared descriptors, R/W/R|W masks, one-shot) and 34 in-callback mutation scripts (disable/enable/destroy siblings and events on other ready descriptors, create a new event, close) is run on epoll and select; callbacks are judged against the harness' own enabled/alive model and a poll() readiness snapshot; crashes, sanitizer reports and exceptions are violations.",
    note="Trusted: poll(fd,0) snapshot as readiness ground truth, ASan; bounds: 3 descriptors, 3+1 events, one script per run, depth 4 (quick) / 6 (thorough); fd-number reuse within a pass not modelled.", ref="2/C03"),
